@@ -1,4 +1,4 @@
-import PewProofs.Sync
+import PewProofs.SyncSingle
 
 /-! # C08 — property theorems (statements only depend on `PewModel.Sync`) -/
 namespace Pew.Sync
@@ -9,14 +9,8 @@ namespace Pew.Sync
 within 5e-7 of `j` — in particular for the float quotient of four-decimal coordinates, which is
 within 1e-9 of the exact integer quotient. -/
 theorem pixel_index_robust (j : Nat) (δ : Rat) (h1 : -(5 / 10000000) < δ) (h2 : δ < 5 / 10000000) :
-    pixIdx ((j : Rat) + δ) = (j : Int) := by
-  unfold pixIdx round6
-  have e : ((j : Rat) + δ) * 1000000 = (((j * 1000000 : Nat) : Int) : Rat) + δ * 1000000 := by
-    push_cast; ring
-  rw [e, roundHalfEven_near _ _ (by linarith) (by linarith)]
-  have : ((((j * 1000000 : Nat) : Int) : Rat)) / 1000000 = ((j : Int) : Rat) := by
-    push_cast; field_simp
-  rw [this, truncR_int]
+    pixIdx ((j : Rat) + δ) = (j : Int) :=
+  pixIdx_near j δ h1 h2
 
 example : pixIdx ((32 : Nat) + (-(1 : Rat) / 1000000000)) = 32 :=
   pixel_index_robust 32 _ (by norm_num) (by norm_num)
@@ -39,13 +33,8 @@ example : pixIdxTrunc ((32 : Nat) + (-(1 : Rat) / 1000000000)) = 31 := by
 `u`·1e-4 µm > 0) is pixel `j`, also when the quotient is perturbed by less than 5e-7. -/
 theorem pixel_of_aligned (o : Int) (u j : Nat) (hu : 0 < u) (δ : Rat)
     (h1 : -(5 / 10000000) < δ) (h2 : δ < 5 / 10000000) :
-    pixIdx (quot o ((u : Rat) / 10000) (o + (j * u : Nat)) + δ) = (j : Int) := by
-  have hq : quot o ((u : Rat) / 10000) (o + (j * u : Nat)) = (j : Rat) := by
-    unfold quot
-    have hu' : (u : Rat) ≠ 0 := by exact_mod_cast hu.ne'
-    have : ((o + ((j * u : Nat) : Int) - o : Int) : Rat) = (j : Rat) * (u : Rat) := by push_cast; ring
-    rw [this]; field_simp
-  rw [hq]; exact pixel_index_robust j δ h1 h2
+    pixIdx (quot o ((u : Rat) / 10000) (o + (j * u : Nat)) + δ) = (j : Int) :=
+  pixIdx_aligned o u j hu δ h1 h2
 
 example : toPix 803946132 ((11000 : Nat) / 10000) (803946132 + (32 * 11000 : Nat)) = 32 := by
   have := pixel_of_aligned 803946132 11000 32 (by norm_num) 0 (by norm_num) (by norm_num)
@@ -60,61 +49,8 @@ else is written. -/
 theorem line_placement {α} (xs : List α) (g : Seg) (hax : g.y0 = g.y1 ∨ g.x0 = g.x1) :
     ∃ w, segWrites xs g = some w ∧
       ∀ (p : Int × Int) (v : α), (p, v) ∈ w ↔
-        ∃ k : Nat, k < min xs.length g.len ∧ p = g.cellAt (g.len - 1 - k) ∧ xs[xs.length - 1 - k]? = some v := by
-  unfold segWrites Seg.len Seg.cellAt
-  by_cases hy : g.y0 = g.y1
-  · simp only [hy, if_true]
-    refine ⟨_, rfl, ?_⟩
-    intro p v
-    obtain ⟨r, c⟩ := p
-    simp only [List.mem_map, Prod.mk.injEq]
-    have hlen : (max g.x0 g.x1 - min g.x0 g.x1).toNat = (g.x1 - g.x0).natAbs := by omega
-    constructor
-    · rintro ⟨⟨c', v'⟩, hm, ⟨rfl, rfl⟩, rfl⟩
-      obtain ⟨k, hk, hc, hv⟩ := (mem_place1 _ _ (by omega) _ xs c' v').mp hm
-      rw [hlen] at hk hc
-      refine ⟨k, hk, ?_, hv⟩
-      refine ⟨rfl, ?_⟩
-      rw [hc]; unfold travelCell
-      by_cases hf : g.x1 < g.x0
-      · simp [hf]; rw [if_neg (by omega)]; omega
-      · simp [hf]; rw [if_pos (by omega)]; omega
-    · rintro ⟨k, hk, ⟨rfl, hc⟩, hv⟩
-      refine ⟨(c, v), ?_, ⟨rfl, rfl⟩, rfl⟩
-      apply (mem_place1 _ _ (by omega) _ xs c v).mpr
-      rw [hlen]
-      refine ⟨k, hk, ?_, hv⟩
-      rw [hc]; unfold travelCell
-      by_cases hf : g.x1 < g.x0
-      · simp [hf]; rw [if_neg (by omega)]; omega
-      · simp [hf]; rw [if_pos (by omega)]; omega
-  · have hx : g.x0 = g.x1 := by rcases hax with h | h; exact absurd h hy; exact h
-    simp only [hy, if_false, hx, if_true]
-    refine ⟨_, rfl, ?_⟩
-    intro p v
-    obtain ⟨r, c⟩ := p
-    simp only [List.mem_map, Prod.mk.injEq]
-    have hlen : (max g.y0 g.y1 - min g.y0 g.y1).toNat = (g.y1 - g.y0).natAbs := by omega
-    constructor
-    · rintro ⟨⟨r', v'⟩, hm, ⟨rfl, rfl⟩, rfl⟩
-      obtain ⟨k, hk, hc, hv⟩ := (mem_place1 _ _ (by omega) _ xs r' v').mp hm
-      rw [hlen] at hk hc
-      refine ⟨k, hk, ?_, hv⟩
-      refine ⟨?_, rfl⟩
-      rw [hc]; unfold travelCell
-      by_cases hf : g.y1 < g.y0
-      · simp [hf]; rw [if_neg (by omega)]; omega
-      · simp [hf]; rw [if_pos (by omega)]; omega
-    · rintro ⟨k, hk, ⟨hc, rfl⟩, hv⟩
-      refine ⟨(r, v), ?_, ⟨rfl, rfl⟩, rfl⟩
-      apply (mem_place1 _ _ (by omega) _ xs r v).mpr
-      rw [hlen]
-      refine ⟨k, hk, ?_, hv⟩
-      rw [hc]; unfold travelCell
-      by_cases hf : g.y1 < g.y0
-      · simp [hf]; rw [if_neg (by omega)]; omega
-      · simp [hf]; rw [if_pos (by omega)]; omega
-
+        ∃ k : Nat, k < min xs.length g.len ∧ p = g.cellAt (g.len - 1 - k) ∧ xs[xs.length - 1 - k]? = some v :=
+  segWrites_spec xs g hax
 
 /-- one sample per pixel (`n = L`): travel step `j` of the line holds sample `j` — the line is
 reproduced, in the orientation of travel, for all four directions -/
@@ -258,13 +194,6 @@ example : (allWrites 4 ([(exOn, exOff)].map
 
 /-! ## selection of a pattern -/
 
-/-- a logged pattern: a header row carrying the sequence number, then rows with a blank one -/
-structure Block where
-  hdr : Row
-  body : List Row
-
-def Block.rows (b : Block) : List Row := b.hdr :: b.body
-
 /-- Forward fill and selection: in a log made of patterns whose header rows carry non-decreasing
 sequence numbers (≥ −1) and whose other rows leave the column blank, selecting `sel` keeps exactly
 the rows of the patterns whose number is in `sel`, each labelled with its pattern's number —
@@ -274,68 +203,8 @@ theorem select_pattern (bs : List Block) (sel : List Int)
     (hlow : ∀ b ∈ bs, -1 ≤ b.hdr.seq)
     (hinc : bs.Pairwise (fun a b => a.hdr.seq ≤ b.hdr.seq)) :
     selectRows (some sel) (bs.flatMap Block.rows)
-      = (bs.filter (fun b => sel.contains b.hdr.seq)).flatMap (fun b => b.rows.map (setSeq · b.hdr.seq)) := by
-  have key : ∀ (bs : List Block) (acc : Int), -1 ≤ acc → (∀ b ∈ bs, acc ≤ b.hdr.seq) →
-      (∀ b ∈ bs, ∀ r ∈ b.body, r.seq = -1) → bs.Pairwise (fun a b => a.hdr.seq ≤ b.hdr.seq) →
-      fillRowsAux acc (bs.flatMap Block.rows) = bs.flatMap (fun b => b.rows.map (setSeq · b.hdr.seq)) := by
-    intro bs
-    induction bs with
-    | nil => intros; rfl
-    | cons b rest ih =>
-      intro acc hacc hle hbody hinc
-      rw [List.pairwise_cons] at hinc
-      have hb := hle b (by simp)
-      simp only [List.flatMap_cons, Block.rows]
-      rw [List.cons_append, fillRowsAux]
-      have hm : max acc b.hdr.seq = b.hdr.seq := by omega
-      have hhead : (if b.hdr.seq = -1 then max acc b.hdr.seq else b.hdr.seq) = b.hdr.seq := by
-        split <;> omega
-      rw [hhead, hm, fillRowsAux_append]
-      have hblank := fillRowsAux_blank b.hdr.seq (by omega) b.body (hbody b (by simp))
-      rw [hblank.1, hblank.2]
-      rw [ih b.hdr.seq (by omega) (fun b' hb' => hinc.1 b' hb') (fun b' hb' => hbody b' (by simp [hb'])) hinc.2]
-      simp [Block.rows]
-  have hfill : List.zipWith setSeq (bs.flatMap Block.rows) (fillInts ((bs.flatMap Block.rows).map (·.seq)))
-      = bs.flatMap (fun b => b.rows.map (setSeq · b.hdr.seq)) := by
-    cases bs with
-    | nil => rfl
-    | cons b rest =>
-      rw [List.pairwise_cons] at hinc
-      have h0 := key (b :: rest) b.hdr.seq (hlow b (by simp))
-        (by intro b' hb'; rcases List.mem_cons.mp hb' with h | h
-            · subst h; exact le_refl _
-            · exact hinc.1 b' h)
-        hbody (List.pairwise_cons.mpr hinc)
-      rw [← h0]
-      simp only [List.flatMap_cons, Block.rows, List.cons_append, List.map_cons, fillInts, List.zipWith_cons_cons,
-        fillRowsAux]
-      rw [zipWith_fillAux]
-      congr 1
-      · simp [setSeq]
-      · congr 1; omega
-  unfold selectRows
-  simp only [hfill]
-  clear hfill key
-  induction bs with
-  | nil => rfl
-  | cons b rest ih =>
-    rw [List.pairwise_cons] at hinc
-    simp only [List.flatMap_cons, List.filter_append, List.filter_cons]
-    rw [ih (fun b' hb' => hbody b' (by simp [hb'])) (fun b' hb' => hlow b' (by simp [hb'])) hinc.2]
-    by_cases hc : sel.contains b.hdr.seq = true
-    · rw [if_pos hc, List.flatMap_cons]
-      congr 1
-      rw [List.filter_eq_self]
-      intro r hr
-      obtain ⟨r0, _, rfl⟩ := List.mem_map.mp hr
-      simpa [setSeq] using hc
-    · rw [if_neg hc]
-      have : (b.rows.map (setSeq · b.hdr.seq)).filter (fun r => sel.contains r.seq) = [] := by
-        rw [List.filter_eq_nil_iff]
-        intro r hr
-        obtain ⟨r0, _, rfl⟩ := List.mem_map.mp hr
-        simpa [setSeq] using hc
-      rw [this]; rfl
+      = (bs.filter (fun b => sel.contains b.hdr.seq)).flatMap (fun b => b.rows.map (setSeq · b.hdr.seq)) :=
+  select_blocks bs sel hbody hlow hinc
 
 def exRow (s : Int) : Row := { time := 0, seq := s, x := 0, y := 0, on := false, spot := "1" }
 
@@ -435,21 +304,213 @@ theorem sync_samples_were_on (rows : List Row) (sel : Option (List Int)) (ts : L
     · simp [throw, throwThe, MonadExceptOf.throw] at h
   · simp [throw, throwThe, MonadExceptOf.throw] at h
 
-/-! ## stretch (NOT proved): end to end
+/-! ## end to end: `sync (render a)` is the ground-truth image
 
-The full statement
+`render` (the specification) writes the log, the sample times and the delay of a rastered acquisition:
+any number of logged patterns, each one of the eight scan patterns (`dir` × `serp`), any number and
+length of lines, laser-off gaps with or without samples before every line, stage-move rows, a lead-in
+and a tail, one sample per pixel somewhere strictly inside its dwell slot, and a signal that may start
+late or end early (`skip`, `take`).  `truthHyp` is the decidable domain on which the property's text
+defines the ground truth (see `PewModel.Sync`).  The theorems below compose the pieces above. -/
 
-    theorem sync_render (a : Acq) (sel) (h : truthHyp a sel = true) (hdisjoint : selected patterns do not overlap) :
-      ∀ rd, render a sel = some rd →
-        ∃ r, sync rd.rows sel rd.times rd.delay isnan false = .ok r ∧
-          r.origin = truthOrigin a sel ∧ ∀ row col, pixel r row col = truthImage a sel … row col
+/-- The spot size written in the log (`"a x b"`, or `"a"` for a circular spot, shortest decimal
+notation of a four-decimal value) parses back to the pattern's spot size in µm — all values. -/
+theorem render_spot_roundtrip (p : Pattern) :
+    spotSize p.spotStr =
+      some [(p.sxu : Rat) / 10000, ((if p.circular then p.sxu else p.syu : Nat) : Rat) / 10000] :=
+  spotSize_spotStr p
 
-composes the theorems above: `select_pattern` (the rendered log is a list of blocks), `origin_spec`
-and `pixel_of_aligned` (every rendered coordinate is the origin plus a multiple of the spot size),
-`sample_range` (mid-dwell samples of a line are exactly the samples in its On/Off interval, gap
-samples are in none), `image_of_lines` (the image is the union of the lines, each in travel order).
-The composition itself — threading the clock and the sample counter through `emitAll` — is not
-machine-checked; it is exercised by the correspondence check (`spec` = `truthImage`, `model` =
-`sync ∘ render`, both evaluated by the driver on every generated acquisition). -/
+def exSpotPat : Pattern :=
+  { seq := 1, dir := .lr, serp := false, X := 0, Y := 0, sxu := 11000, syu := 125000, circular := false,
+    npix := 1, dwell := 1, lines := [] }
+
+example : exSpotPat.spotStr = "1.1 x 12.5" := by decide +kernel
+
+/-- Selecting `sel` (`none` = everything) in the rendered log imports exactly the `On`/`Off` pairs of
+the lines of the selected patterns, in the order of recording — wherever the wanted patterns sit in the
+log, whatever stage-move rows surround the lines.  (Sequence numbers non-negative, non-decreasing.) -/
+theorem render_selects_lines (a : Acq) (sel : Option (List Int))
+    (hseq : ∀ p ∈ a.patterns, 0 ≤ p.seq)
+    (hinc : (a.patterns.map (·.seq)).Pairwise (· ≤ ·)) :
+    pairs (selectRows sel (emitAll a).rows) = some ((selLines a sel).map LineRec.pair) :=
+  rendered_pairs a sel hseq hinc
+
+/-- Laser events against samples, whatever the gaps: for every line of the acquisition (with `P` the
+number of samples recorded before its first pixel — gap samples, other lines, other patterns), the
+samples recorded before its `On` event are exactly the first `P` and those before its `Off` event
+exactly the first `P + npix`.  Laser-off samples therefore fall in no line's range. -/
+theorem render_event_index (a : Acq) (h0 : 0 < a.phase) (h1 : a.phase < 1) (hd : ∀ p ∈ a.patterns, 0 < p.dwell)
+    (lP : LineRec × Nat) (hlP : lP ∈ lineStarts 0 a.lines) (n : Nat) (s : Sample)
+    (hs : (emitAll a).samples[n]? = some s) :
+    (s.t < (lP.1.on : Rat) ↔ n < lP.2) ∧ (s.t < (lP.1.off : Rat) ↔ n < lP.2 + lP.1.p.npix) :=
+  all_times a h0 h1 hd lP hlP n s hs
+
+/-- The delay: `render` passes as delay the time between the first firing `f` (laser clock, ms) and the
+first sample of the signal — negative when the signal starts first.  With it, `sync`'s shifted sample
+times are the samples' laser-clock times counted from the first firing: a laser event at `t` picks up
+the signal recorded at `t − d` in the signal's own time. -/
+theorem render_delay (a : Acq) (sel : Option (List Int)) (rd : Rendered)
+    (h0 : 0 < a.phase) (h1 : a.phase < 1) (hd : ∀ p ∈ a.patterns, 0 < p.dwell) (hr : render a sel = some rd) :
+    ∃ (f : Int) (s0 : Sample), firstFiring a sel = some f ∧ (signal a).head? = some s0 ∧
+      rd.delay = (s0.t - (f : Rat)) / 1000 ∧
+      shiftTimes rd.times rd.delay = (signal a).map (fun x => (x.t - (f : Rat)) / 1000) := by
+  obtain ⟨f, s0, hf, hs0, rfl⟩ := render_some a sel rd hr
+  exact ⟨f, s0, hf, hs0, rfl, shifted_times a h0 h1 hd s0 hs0 f⟩
+
+/-- The four directions, unidirectional or serpentine (`lineEnds`/`stepCell` follow `lineDir`): for
+line `i` of a pattern that sits `cx`, `cy` whole spot sizes above the origin, the pixel indices of the
+logged `On`/`Off` coordinates give an axis-parallel segment of `npix` pixels whose travel step `j` is
+the ground-truth pixel of the stage cell under the laser at step `j`; all indices are ≥ 0. -/
+theorem render_line_cells (p : Pattern) (i : Nat) (ox oy : Int) (cx cy : Nat)
+    (hX : p.X = ox + ((cx * p.sxu : Nat) : Int)) (hY : p.Y = oy + ((cy * p.syu : Nat) : Int))
+    (hu : 0 < p.sxu) (hv : 0 < p.syu) (hn : 0 < p.npix) (g : Seg)
+    (hx0 : g.x0 = toPix ox ((p.sxu : Rat) / 10000) (p.lineEnds i).1.1)
+    (hx1 : g.x1 = toPix ox ((p.sxu : Rat) / 10000) (p.lineEnds i).2.1)
+    (hy0 : g.y0 = toPix oy ((p.syu : Rat) / 10000) (p.lineEnds i).1.2)
+    (hy1 : g.y1 = toPix oy ((p.syu : Rat) / 10000) (p.lineEnds i).2.2) :
+    (g.y0 = g.y1 ∨ g.x0 = g.x1) ∧ g.len = p.npix ∧
+    (∀ j, j < p.npix → g.cellAt j =
+      (((p.stepCell i j).2 - oy) / (p.syu : Int), ((p.stepCell i j).1 - ox) / (p.sxu : Int))) ∧
+    0 ≤ g.x0 ∧ 0 ≤ g.x1 ∧ 0 ≤ g.y0 ∧ 0 ≤ g.y1 :=
+  seg_geom p i ox oy cx cy hX hY hu hv hn g hx0 hx1 hy0 hy1
+
+/-- The ground truth line by line: pixel (r, c) holds sample `v` of the signal iff `v` is the sample of
+travel step `j` of an imported line and lies in the recorded window. -/
+theorem truth_by_lines (a : Acq) (sel : Option (List Int)) (hyp : truthHyp a sel = true) (r c : Int) (v : Nat) :
+    ∃ p0, (selectedPatterns a sel).head? = some p0 ∧
+      ((r, c, v) ∈ truthCells a sel ↔
+        ∃ lP ∈ lineStarts 0 a.lines, lP.1 ∈ selLines a sel ∧ ∃ j, j < lP.1.p.npix ∧ a.skip + v = lP.2 + j ∧
+          v < a.take ∧ (r, c) = truthPixel a sel p0 lP.1 j) := by
+  obtain ⟨p0, H⟩ := truthHyp_spec a sel hyp
+  exact ⟨p0, H.head, truthCells_iff a sel p0 H r c v⟩
+
+/-- **C08, main statement.**  For every rendered acquisition in the domain of the ground truth —
+one or several logged patterns, each any of the eight scan patterns, any number and length of lines,
+any stage origin and spot size (square, rectangular, circular notation), arbitrary laser-off gaps with
+or without samples, any selection `sel`, a signal that starts before or after the first firing (delay
+of either sign) and may end early — `sync` on the rendered log, times and delay succeeds, reports the
+log's origin and spot size, and its image is the ground-truth image: every pixel holds the sample
+recorded while the laser was over it, unvisited pixels are NaN (`none`), laser-off samples appear
+nowhere; and every visited pixel lies inside the returned canvas. -/
+theorem sync_render (a : Acq) (sel : Option (List Int)) (isnan : Nat → Bool) (rd : Rendered)
+    (hyp : truthHyp a sel = true) (hr : render a sel = some rd) :
+    ∃ r, sync rd.rows sel rd.times rd.delay isnan false = .ok r ∧
+      r.origin = truthOrigin a sel ∧
+      (∃ p0, (selectedPatterns a sel).head? = some p0 ∧ r.spot = [(p0.sxu : Rat) / 10000, (p0.syu : Rat) / 10000]) ∧
+      r.pixels = truthImage a sel r.height r.width ∧
+      ∀ e ∈ truthCells a sel, 0 ≤ e.1 ∧ e.1 < (r.height : Int) ∧ 0 ≤ e.2.1 ∧ e.2.1 < (r.width : Int) :=
+  sync_render_core a sel isnan rd hyp hr
+
+/-- The same with `squeeze=True`: the result is the ground-truth image on a canvas holding every
+visited pixel, with its all-NaN rows and columns removed (`isnan k`: sample `k` is NaN in every
+element). -/
+theorem sync_render_squeeze (a : Acq) (sel : Option (List Int)) (isnan : Nat → Bool) (rd : Rendered)
+    (hyp : truthHyp a sel = true) (hr : render a sel = some rd) :
+    ∃ (r : Result) (h w : Nat), sync rd.rows sel rd.times rd.delay isnan true = .ok r ∧
+      r.origin = truthOrigin a sel ∧
+      (∃ p0, (selectedPatterns a sel).head? = some p0 ∧ r.spot = [(p0.sxu : Rat) / 10000, (p0.syu : Rat) / 10000]) ∧
+      (∀ e ∈ truthCells a sel, 0 ≤ e.1 ∧ e.1 < (h : Int) ∧ 0 ≤ e.2.1 ∧ e.2.1 < (w : Int)) ∧
+      r.pixels = (squeezeImg isnan w (truthImage a sel h w)).1 ∧
+      r.width = (squeezeImg isnan w (truthImage a sel h w)).2 ∧ r.height = r.pixels.length :=
+  sync_render_squeeze_core a sel isnan rd hyp hr
+
+/-- On the domain of the ground truth `render` is defined (there is a first firing in the selection and
+the signal is not empty), so `sync_render` is never vacuous in its second hypothesis. -/
+theorem render_defined (a : Acq) (sel : Option (List Int)) (hyp : truthHyp a sel = true) :
+    ∃ rd, render a sel = some rd :=
+  render_defined_core a sel hyp
+
+/-- The domain is not a list of examples: every complete recording (`skip = 0`, all samples taken) of a
+single logged pattern — any of the eight scan patterns, any number ≥ 1 and length ≥ 1 of lines, any
+gaps with or without laser-off samples, any stage-move rows, lead-in and tail, any stage origin, any
+positive spot size, samples anywhere strictly inside their slots — satisfies `truthHyp`. -/
+theorem domain_single_pattern (a : Acq) (sel : Option (List Int)) (p : Pattern) (hp : a.patterns = [p])
+    (hsel : isSelected sel p.seq = true)
+    (h0 : 0 < a.phase) (h1 : a.phase < 1) (hseq : 0 ≤ p.seq) (hd : 0 < p.dwell)
+    (hu : 0 < p.sxu) (hv : 0 < p.syu) (hc : p.circular = true → p.sxu = p.syu)
+    (hn : 0 < p.npix) (hl : p.lines ≠ [])
+    (hskip : a.skip = 0) (htake : a.take = (emitAll a).samples.length) :
+    truthHyp a sel = true :=
+  truthHyp_single a sel p hp hsel h0 h1 hseq hd hu hv hc hn hl hskip htake
+
+/-- **C08 for one pattern, hypotheses spelled out** (stages: one line or many, each direction,
+unidirectional or serpentine, gaps with laser-off samples): the complete recording of any single
+logged raster is synchronised to its ground-truth image. -/
+theorem sync_render_single (a : Acq) (isnan : Nat → Bool) (p : Pattern) (hp : a.patterns = [p])
+    (h0 : 0 < a.phase) (h1 : a.phase < 1) (hseq : 0 ≤ p.seq) (hd : 0 < p.dwell)
+    (hu : 0 < p.sxu) (hv : 0 < p.syu) (hc : p.circular = true → p.sxu = p.syu)
+    (hn : 0 < p.npix) (hl : p.lines ≠ [])
+    (hskip : a.skip = 0) (htake : a.take = (emitAll a).samples.length) :
+    ∃ rd r, render a none = some rd ∧ sync rd.rows none rd.times rd.delay isnan false = .ok r ∧
+      r.origin = (p.X, p.Y) ∧ r.spot = [(p.sxu : Rat) / 10000, (p.syu : Rat) / 10000] ∧
+      r.pixels = truthImage a none r.height r.width ∧
+      ∀ e ∈ truthCells a none, 0 ≤ e.1 ∧ e.1 < (r.height : Int) ∧ 0 ≤ e.2.1 ∧ e.2.1 < (r.width : Int) := by
+  have hyp := domain_single_pattern a none p hp rfl h0 h1 hseq hd hu hv hc hn hl hskip htake
+  obtain ⟨rd, hr⟩ := render_defined a none hyp
+  obtain ⟨r, hok, horig, ⟨p0, hhead, hspot⟩, hpix, hb⟩ := sync_render a none isnan rd hyp hr
+  have hps : selectedPatterns a none = [p] := by simp [selectedPatterns, hp, isSelected]
+  rw [hps] at hhead
+  simp only [List.head?_cons, Option.some.injEq] at hhead
+  subst hhead
+  refine ⟨rd, r, hr, hok, ?_, hspot, hpix, hb⟩
+  rw [horig]; simp [truthOrigin, hps, minList]
+
+/-! ### non-vacuity: concrete acquisitions satisfy the hypotheses -/
+
+/-- a serpentine raster of two lines of three pixels (left-to-right, then right-to-left one row down),
+stage origin (80394.6132, 34824.0754) µm, spot 1.1 × 2.5 µm, 10 ms dwell; a 25 ms lead-in with two
+laser-off samples, a 7 ms gap with one laser-off sample between the lines, samples at 1/3 of their
+slots, a 5 ms tail with one sample -/
+def exSerp : Acq :=
+  { patterns := [{ seq := 2, dir := .lr, serp := true, X := 803946132, Y := 348240754, sxu := 11000, syu := 25000,
+                   circular := false, npix := 3, dwell := 10,
+                   lines := [{ gap := 25, gapSamples := 2, moves := 2 }, { gap := 7, gapSamples := 1, moves := 1 }] }]
+    phase := 1 / 3, tailGap := 5, tailSamples := 1, skip := 0, take := 10, t0 := 69 / 4 }
+
+example : truthHyp exSerp none = true := by decide +kernel
+example : (render exSerp none).isSome = true := by decide +kernel
+/-- its ground truth: samples 2,3,4 on row 0 left to right, samples 6,7,8 on row 1 right to left -/
+example : truthImage exSerp none 2 3 = [[some 2, some 3, some 4], [some 8, some 7, some 6]] := by decide +kernel
+
+/-- the same acquisition with the signal starting in the middle of the first line (a positive delay)
+and ending before the tail -/
+def exLate : Acq := { exSerp with skip := 3, take := 6 }
+
+example : truthHyp exLate (some [2]) = true := by decide +kernel
+example : (render exLate (some [2])).isSome = true := by decide +kernel
+example : truthImage exLate (some [2]) 2 3 = [[none, some 0, some 1], [some 5, some 4, some 3]] := by decide +kernel
+
+/-- two logged patterns (a bottom-to-top unidirectional one, numbered 1, and the serpentine one above,
+numbered 2); the second is selected -/
+def exTwo : Acq :=
+  { exSerp with
+    patterns := { seq := 1, dir := .bt, serp := false, X := 0, Y := -50000, sxu := 400000, syu := 400000,
+                  circular := true, npix := 2, dwell := 4,
+                  lines := [{ gap := 0, gapSamples := 0, moves := 0 }, { gap := 3, gapSamples := 0, moves := 2 }] }
+                :: exSerp.patterns
+    take := 14 }
+
+example : truthHyp exTwo (some [2]) = true := by decide +kernel
+example : truthHyp exTwo none = false := by decide +kernel   -- different spot sizes: no common pixel grid
+example : (render exTwo (some [2])).isSome = true := by decide +kernel
+example : truthImage exTwo (some [2]) 2 3 = [[some 6, some 7, some 8], [some 12, some 11, some 10]] := by
+  decide +kernel
+
+/-- the whole chain evaluated on `exSerp`: `sync` of the rendered log is the ground truth (the canvas
+has a fourth, unvisited column because the `Off` coordinate of a left-to-right line is pixel 3) -/
+def exRes (a : Acq) (sel : Option (List Int)) : Result :=
+  match (render a sel).map (fun rd => sync rd.rows sel rd.times rd.delay (fun _ => false) false) with
+  | some (.ok r) => r
+  | _ => { height := 0, width := 0, pixels := [], origin := (0, 0), spot := [] }
+
+example : (exRes exSerp none).pixels = [[some 2, some 3, some 4, none], [some 8, some 7, some 6, none]] := by
+  decide +kernel
+example : (exRes exSerp none).pixels = truthImage exSerp none 2 4 := by decide +kernel
+example : (exRes exSerp none).origin = (803946132, 348240754) ∧ (exRes exSerp none).spot = [11 / 10, 5 / 2] := by
+  decide +kernel
+example : (exRes exLate (some [2])).pixels = [[none, some 0, some 1, none], [some 5, some 4, some 3, none]] := by
+  decide +kernel
+example : (exRes exTwo (some [2])).pixels = [[some 6, some 7, some 8, none], [some 12, some 11, some 10, none]] := by
+  decide +kernel
 
 end Pew.Sync
